@@ -1,7 +1,105 @@
 (* C06 - Hot-parameter concurrency is capped per value and its counters conserved.
-   Property theorems only; every proof is `exact <lemma>` from Proofs/. *)
-From SG Require Import Base.Prelude Base.GoInt Model.LRU Model.Hotspot Proofs.HotspotConcProofs.
+   Property theorems only; every proof is `exact <lemma>` from Proofs/.
+
+   Setting (Proofs/HotspotConcProofs.v): histories are lists of Enter / Exit / Tick operations
+   through the public API ([run] of Model/Hotspot.v) over any number of resources, each guarded
+   by any list of hotspot rules (concurrency and QPS mixed); Exit k exits the entry returned by
+   the k-th operation, in any order - every interleaving of Entry and Exit calls of many
+   goroutines at call granularity is such a list.  Every live entry carries its own input
+   (api.entry after the args-copy fix 5064881), which is what Exit re-reads.
+   - [reach rules adv clk0 ops] is the state after the history [ops];
+   - [live_count res r v L]: number of entries in the live list L that were opened on resource
+     res with a request whose selected argument under rule r is v - the true in-flight figure;
+   - [cnt (m_conc m) v]: content of the cell of v in the rule's ConcurrencyCounter (absent = 0);
+   - "capacity not exceeded": all values selected by concurrency rules in the history are real
+     (non-NaN) keys of a duplicate-free list K no longer than any concurrency rule's
+     ParamsMaxCapacity ([op_in], [caps_fit]).  Beyond it the property is false
+     (C06_counter_exact_refuted, finding C06-F1). *)
+From SG Require Import Base.Prelude Base.GoInt Model.LRU Model.Hotspot
+  Proofs.LRUProofs Proofs.HotspotCtrlProofs Proofs.HotspotRunProofs Proofs.HotspotConcProofs
+  Proofs.HotspotConcDemo.
 #[local] Open Scope Z_scope.
+
+(* in every reachable state, for every concurrency rule of every resource and every value v:
+   counter(v) = number of live entries admitted with v *)
+Theorem C06_counter_exact : forall (K : list Z), NoDup K ->
+  forall rules, (forall res, caps_fit K (rules res)) ->
+  forall adv clk0 ops, Forall (op_in K rules) ops -> Z.of_nat (length ops) < two62 ->
+  let s := fst (run rules adv (init clk0) ops) in
+  forall res i r m, nth_error (rules res) i = Some r -> nth_error (metrics_of rules s res) i = Some m ->
+  is_conc r = true -> forall v, cnt (m_conc m) v = live_count res r v (s_live s).
+Proof. exact run_counter_exact. Qed.
+
+(* ... hence 0 for every value once all entries have exited *)
+Theorem C06_counter_returns_to_zero : forall (K : list Z), NoDup K ->
+  forall rules, (forall res, caps_fit K (rules res)) ->
+  forall adv clk0 ops, Forall (op_in K rules) ops -> Z.of_nat (length ops) < two62 ->
+  let s := fst (run rules adv (init clk0) ops) in
+  s_live s = [] ->
+  forall res i r m, nth_error (rules res) i = Some r -> nth_error (metrics_of rules s res) i = Some m ->
+  is_conc r = true -> forall v, cnt (m_conc m) v = 0.
+Proof. exact run_counter_zero. Qed.
+
+(* on a resource guarded by concurrency rules, an Entry in any reachable state is admitted iff,
+   for every rule, the live entries of the value the request selects under that rule are fewer
+   than the threshold in force for that value (specific item or general) - no other value, rule
+   position or resource enters the condition *)
+Theorem C06_decision : forall (K : list Z), NoDup K ->
+  forall rules, (forall res, caps_fit K (rules res)) ->
+  forall adv clk0 ops res q, Forall (op_in K rules) ops -> Z.of_nat (length ops) < two62 ->
+  req_in K (rules res) q -> Forall (fun r => is_conc r = true) (rules res) ->
+  let s := reach rules adv clk0 ops in
+  snd (step rules adv s (Enter res q)) = OPass [] <-> Forall (admits res (s_live s) q) (rules res).
+Proof. exact run_decision. Qed.
+
+(* one check of one concurrency rule (any rule list around it): pass iff live(v) < T_v, and a
+   refusal reports live(v) + 1; threshold 0 therefore refuses every request (fix 6c5ca17) *)
+Theorem C06_decision_rule : forall (K : list Z), NoDup K -> forall res L r m k,
+  is_conc r = true -> Z.of_nat (length K) <= cache_size r -> In k K -> real_key k ->
+  Z.of_nat (length L) < two62 -> CI K res L r m ->
+  let n := live_count res r k L in
+  CI K res L r (fst (conc_check r m k)) /\
+  alookup k (m_conc (fst (conc_check r m k))) <> None /\
+  snd (conc_check r m k) = if n <? tok_count r k then DPass else DBlock (Some (n + 1)).
+Proof. exact conc_check_spec. Qed.
+
+Theorem C06_threshold_zero_refuses : forall (K : list Z), NoDup K -> forall res L r m k,
+  is_conc r = true -> Z.of_nat (length K) <= cache_size r -> In k K -> real_key k ->
+  Z.of_nat (length L) < two62 -> CI K res L r m -> tok_count r k <= 0 ->
+  snd (conc_check r m k) = DBlock (Some (live_count res r k L + 1)).
+Proof. exact conc_check_threshold_zero. Qed.
+
+(* Exit of a live entry changes every cell of every concurrency rule by minus the entry's own
+   contribution (1 for the value it was admitted with under that rule on its resource, 0 for
+   every other value, rule without the argument, or resource) *)
+Theorem C06_release_own_unit : forall (K : list Z), NoDup K ->
+  forall rules, (forall res, caps_fit K (rules res)) ->
+  forall adv clk0 ops k res q, Forall (op_in K rules) ops -> Z.of_nat (length ops) + 1 < two62 ->
+  let s := reach rules adv clk0 ops in
+  alookup k (s_live s) = Some (res, q) ->
+  let s' := fst (step rules adv s (Exit k)) in
+  forall res' i r m m', nth_error (rules res') i = Some r ->
+  nth_error (metrics_of rules s res') i = Some m -> nth_error (metrics_of rules s' res') i = Some m' ->
+  is_conc r = true -> forall v, cnt (m_conc m') v = cnt (m_conc m) v - contrib res' r v (res, q).
+Proof. exact run_release_own_unit. Qed.
+
+(* non-vacuity: two concurrency rules on different argument positions, a specific item, entries
+   with different values alive together, refusals by either rule, an exit out of order *)
+Example C06_nonvacuous :
+  NoDup c_K /\ (forall res, caps_fit c_K (c_rules res)) /\ Forall (op_in c_K c_rules) c_ops /\
+  Z.of_nat (length c_ops) + 1 < two62 /\ Forall (fun r => is_conc r = true) (c_rules 0) /\
+  snd (run c_rules true (init 0) c_ops) =
+    [OPass []; OBlock 1 (Some 2) []; OPass []; OPass []; OBlock 0 (Some 3) []; ONone; OBlock 0 (Some 2) []] /\
+  map m_conc (metrics_of c_rules (reach c_rules true 0 c_ops) 0) = [[(6, 1); (5, 1)]; [(7, 0)]] /\
+  map fst (s_live (reach c_rules true 0 c_ops)) = [3; 2] /\
+  alookup 3 (s_live (reach c_rules true 0 c_ops)) = Some (0, c_q [5]) /\
+  snd (step c_rules true (reach c_rules true 0 c_ops) (Enter 0 (c_q [5]))) = OPass [] /\
+  snd (step c_rules true (reach c_rules true 0 c_ops) (Enter 0 (c_q [6]))) = OBlock 0 (Some 2) [].
+Proof.
+  destruct c_run as [H1 [H2 H3]]. destruct c_next as [H4 H5].
+  exact (conj c_nodup (conj c_caps (conj c_ops_in (conj c_len (conj c_all_conc
+          (conj H1 (conj H2 (conj H3 (conj c_live3 (conj H4 H5)))))))))).
+Qed.
 
 (* Known finding C06-F1: with more values than ParamsMaxCapacity the cell of a value that is
    still in flight is evicted; its count is lost, later exits drive the re-created cell to -1
@@ -16,4 +114,10 @@ Proof.
   destruct (run _ true (init 0) evict_witness) as [s o]. tauto.
 Qed.
 
+Print Assumptions C06_counter_exact.
+Print Assumptions C06_counter_returns_to_zero.
+Print Assumptions C06_decision.
+Print Assumptions C06_decision_rule.
+Print Assumptions C06_threshold_zero_refuses.
+Print Assumptions C06_release_own_unit.
 Print Assumptions C06_counter_exact_refuted.
